@@ -9,6 +9,8 @@ import (
 	"errors"
 	"fmt"
 	"net"
+	"strconv"
+	"strings"
 
 	_ "github.com/mattn/go-sqlite3"
 )
@@ -42,7 +44,7 @@ func loadRecords(db *sql.DB) (map[string]*Record, error) {
 		if err := rows.Scan(&mac, &ip, &expiry, &hostname); err != nil {
 			return nil, fmt.Errorf("failed to scan row: %w", err)
 		}
-		hwaddr, err := net.ParseMAC(mac)
+		hwaddr, err := parseHWAddr(mac)
 		if err != nil {
 			return nil, fmt.Errorf("malformed hardware address: %s", mac)
 		}
@@ -56,6 +58,32 @@ func loadRecords(db *sql.DB) (map[string]*Record, error) {
 		return nil, fmt.Errorf("failed lease database row scanning: %w", err)
 	}
 	return records, nil
+}
+
+// parseHWAddr reads back what saveIPAddress wrote (net.HardwareAddr.String):
+// colon-separated hex bytes for a hardware address of any length, including
+// the lengths net.ParseMAC refuses (DHCPv4 allows 0..16 bytes).
+func parseHWAddr(s string) (net.HardwareAddr, error) {
+	if hw, err := net.ParseMAC(s); err == nil {
+		return hw, nil
+	}
+	if s == "" {
+		return net.HardwareAddr{}, nil
+	}
+	parts := strings.Split(s, ":")
+	hw := make(net.HardwareAddr, len(parts))
+	for i, p := range parts {
+		// sqlite's numeric affinity may have stripped a leading zero of a one-byte address
+		if len(p) < 1 || len(p) > 2 {
+			return nil, fmt.Errorf("malformed hardware address: %s", s)
+		}
+		b, err := strconv.ParseUint(p, 16, 8)
+		if err != nil {
+			return nil, fmt.Errorf("malformed hardware address: %s", s)
+		}
+		hw[i] = byte(b)
+	}
+	return hw, nil
 }
 
 // saveIPAddress writes out a lease to storage
